@@ -1292,6 +1292,15 @@ func (r *runningStep) startStage(container deployer.Plugin) (bool, int64, error)
 		}
 	}
 
+	// The input and the cancellation may both have been pending; a receive that picked the
+	// input must not start a step that was already stopped or closed.
+	select {
+	case <-r.ctx.Done():
+		r.logger.Debugf("step closed before it could start")
+		return true, 0, nil
+	default:
+	}
+
 	inputSchema, err := r.atpClient.ReadSchema()
 	if err != nil {
 		return false, 0, err
